@@ -109,6 +109,11 @@ Let c : ctx := {| c_root := root; c_cwd := D |}.
 Let b0 : N := f_next f0.
 
 Hypothesis W0 : wf f0.
+Variable fl : rfilter.
+Hypothesis Hmap_mode : forall s, st_mode (f_map fl s) = st_mode s.
+Hypothesis Hmap_link : forall s, st_linkname (f_map fl s) = st_linkname s.
+Hypothesis Hclosed : forall p q, ok_path p = true -> ok_path q = true ->
+  f_rej fl p = true -> is_prefix (comps p) (comps q) -> f_rej fl q = true.
 Hypothesis tmp_ok : forall t, tmpname tmps0 t -> okname t.
 Hypothesis Hunused : tmp_unused D f0 tmps0.
 
@@ -190,9 +195,10 @@ Proof.
 Qed.
 
 (* a delete registers no file *)
-Lemma apply_change_del_pipes idx p s st : r_pipes (apply_change c idx 2 p s st) = r_pipes st.
+Lemma apply_change_del_pipes idx p s st : r_pipes (apply_change fl c idx 2 p s st) = r_pipes st.
 Proof.
-  unfold apply_change. destruct (negb (live st)); [reflexivity|].
+  change (apply_change fl c idx 2 p s st) with (if f_rej fl p then st else apply_change0 c idx 2 p s st).
+  destruct (f_rej fl p); [reflexivity|]. unfold apply_change0. destruct (negb (live st)); [reflexivity|].
   destruct (spend st) as [st1|] eqn:Es; [|reflexivity].
   destruct (spend_core st st1 Es) as (_ & _ & _ & Ep & _).
   cbn [r_fs set_tmps].
@@ -230,14 +236,22 @@ Definition inplace_pre (st : rstate) (p : bytes) : Prop :=
 Lemma apply_change_inplace idx kind p s st acc :
   GB st acc -> N.eqb kind 2 = false -> mode_is_dir (st_mode s) = true ->
   (live st = true -> inplace_pre st p) ->
-  let st' := apply_change c idx kind p s st in
+  let st' := apply_change fl c idx kind p s st in
   GB st' acc /\ same_diff st st' /\ (live st' = true -> live st = true)
   /\ exists b, b0 <= b /\ step TNone b (r_fs st) (r_fs st').
 Proof.
-  intros G Hk Hdir Hpre. cbv zeta. unfold apply_change.
+  intros G Hk Hdir0 Hpre. cbv zeta.
+  change (apply_change fl c idx kind p s st)
+    with (if f_rej fl p then st else apply_change0 c idx kind p (if N.eqb kind 2 then s else f_map fl s) st).
   pose proof (g_wf D f0 tmps0 st acc G) as Wg. pose proof (g_next D f0 tmps0 st acc G) as Hb.
   assert (Hsame : exists b, b0 <= b /\ step TNone b (r_fs st) (r_fs st)).
   { exists b0. split; [lia|]. apply step_refl; auto. }
+  destruct (f_rej fl p).
+  { split; [exact G|]. split; [unfold same_diff; repeat split; reflexivity|]. split; [auto|exact Hsame]. }
+  rewrite Hk.
+  assert (Hdir : mode_is_dir (st_mode (f_map fl s)) = true) by (rewrite Hmap_mode; exact Hdir0).
+  generalize dependent (f_map fl s). clear Hdir0 s. intros s Hdir.
+  unfold apply_change0.
   destruct (live st) eqn:L; cbn [negb].
   2:{ split; [exact G|]. split; [unfold same_diff; repeat split; reflexivity|]. split; [intros H; congruence|exact Hsame]. }
   destruct (Hpre eq_refl) as (Hok & Hsafe & Hex).
@@ -292,7 +306,7 @@ Record OAlive (st : rstate) (acc : list vitem) : Prop := {
 }.
 Definition OInv (st : rstate) (acc : list vitem) : Prop := live st = true -> OAlive st acc.
 
-Definition NInv (st : rstate) (acc : list vitem) : Prop := GInv D f0 tmps0 st acc /\ OInv st acc.
+Definition NInv (st : rstate) (acc : list vitem) : Prop := GInv D f0 tmps0 fl st acc /\ OInv st acc.
 
 (* ================= one STAT of the stream against the unread old listing ================= *)
 Section Feed.
@@ -309,17 +323,18 @@ Hypothesis Hparent : exists l, In (removelast (comps p), l) (map ce v').
 Hypothesis Hacc : Forall (fun it0 => ok_path (vpath it0) = true /\ cleanp (vpath it0)) acc.
 (* what the state before this STAT provides: the parent directory, the source of a hard link,
    the directories that stay on the stack and the seen list are reached without meeting a symlink *)
-Hypothesis Hpar0 : removelast (comps p) = [] \/
+(* (nothing is claimed about what the filter rejects: it never reaches the disk) *)
+Hypothesis Hpar0 : f_rej fl p = false -> removelast (comps p) = [] \/
   exists q, In q (accpaths acc) /\ comps q = removelast (comps p) /\ safe (r_fs stin) D (comps q).
-Hypothesis Hlink0 : hardlink_branch s2 = true ->
+Hypothesis Hlink0 : hardlink_branch s2 = true -> f_rej fl p = false ->
   In (st_linkname s2) (accpaths acc) /\ safe (r_fs stin) D (comps (st_linkname s2)).
 (* the entry will be walked through (a directory) or named as a link source (no symlink) *)
 Definition wanted : Prop :=
   st_is_dir s2 = true \/ (mode_is_symlink (st_mode s2) = false /\ is_nil (st_linkname s2) = true).
-Hypothesis Hstack0 : forall ds l, In (ds, l) v' ->
+Hypothesis Hstack0 : forall ds l, In (ds, l) v' -> f_rej fl ds = false ->
   pcomps ds = [] \/ (exists q, In q (accpaths acc) /\ comps q = pcomps ds /\ safe (r_fs stin) D (comps q))
-  \/ (pcomps ds = comps p /\ wanted).
-Hypothesis Hseen0 : forall q, In q seen' ->
+  \/ (ds = p /\ wanted).
+Hypothesis Hseen0 : forall q, In q seen' -> f_rej fl q = false ->
   (In q (accpaths acc) /\ safe (r_fs stin) D (comps q)) \/ (q = p /\ wanted).
 Hypothesis Hclosed0 : r_closed stin = false.
 
@@ -401,7 +416,7 @@ Proof. reflexivity. Qed.
 Lemma delete_step st f1 rest done :
   J st (f1 :: rest) done -> compare_path (st_path f1) p = Lt ->
   suppressed (r_rmdir st) (st_path f1) = false ->
-  J (apply_change c idx 2 (st_path f1) f1 (set_diff st rest (rm_prefix_of f1))) rest (done ++ [f1]).
+  J (apply_change fl c idx 2 (st_path f1) f1 (set_diff st rest (rm_prefix_of f1))) rest (done ++ [f1]).
 Proof.
   intros Jv Hlt Hsup. pose proof (j_base _ _ _ Jv) as G.
   set (q1 := st_path f1) in *. set (st0 := set_diff st rest (rm_prefix_of f1)).
@@ -415,8 +430,8 @@ Proof.
   assert (HSS : StronglySorted plt (f1 :: rest)) by (apply (old_sorted st (f1 :: rest) done Jv)).
   assert (Hokall : forall s, In s (f1 :: rest) -> ok_path (st_path s) = true).
   { intros s Hs. apply (old_entry s (old_in st _ done s Jv Hs)). }
-  assert (Hpre : live st0 = true -> change_pre D tmps0 2 st0 q1 f1 acc').
-  { intros L. destruct (j_live _ _ _ Jv L) as (A1 & A2 & A3 & A4).
+  assert (Hpre : live st0 = true -> f_rej fl q1 = false -> change_pre D tmps0 2 st0 q1 f1 acc').
+  { intros L _. destruct (j_live _ _ _ Jv L) as (A1 & A2 & A3 & A4).
     unfold change_pre. cbn [r_fs st0 set_diff r_pipes].
     split; [exact Hok1|]. split; [exact Hcl1|]. split.
     - pose proof (A3 f1 (or_introl eq_refl) Hsup) as Hp. rewrite Hw1 in Hp.
@@ -425,9 +440,11 @@ Proof.
       intros id pp Hin. apply cmp_lt_not_prefix.
       pose proof (j_pipes _ _ _ Jv id pp Hin) as Hq. unfold accpaths in Hq. apply in_map_iff in Hq.
       destruct Hq as (x & Ex & Hx). rewrite <- Ex. apply (j_gt _ _ _ Jv f1 x (or_introl eq_refl) Hx). }
-  pose proof (apply_change_inv D root f0 tmps0 tmp_ok idx 2 q1 f1 st0 acc' G0 Hpre) as X.
+  assert (Hfree0 : live st0 = true -> forall j t, reach (r_fs st0) j -> tmpname tmps0 t -> blookup t (ents (r_fs st0) j) = None).
+  { intros L. apply (j_live _ _ _ Jv L). }
+  pose proof (apply_change_inv D root f0 tmps0 fl Hmap_mode Hmap_link Hclosed tmp_ok idx 2 q1 f1 st0 acc' G0 Hpre Hfree0) as X.
   change {| c_root := root; c_cwd := D |} with c in X. cbv zeta in X.
-  set (st1 := apply_change c idx 2 q1 f1 st0) in *.
+  set (st1 := apply_change fl c idx 2 q1 f1 st0) in *.
   destruct X as (G1 & (F1 & F2 & F3 & F4 & F5 & _) & Hpost).
   constructor.
   - exact G1.
@@ -495,24 +512,25 @@ Lemma alive_after (st st' : rstate) :
   r_vstk st' = v' -> r_seen st' = seen' ->
   (forall j t, reach (r_fs st') j -> tmpname tmps0 t -> blookup t (ents (r_fs st') j) = None) ->
   (forall q, In q (accpaths acc) -> safe (r_fs stin) D (comps q) -> safe (r_fs st') D (comps q)) ->
-  (wanted -> safe (r_fs st') D (comps p)) ->
-  alive_inv D tmps0 st'.
+  (wanted -> f_rej fl p = false -> safe (r_fs st') D (comps p)) ->
+  alive_inv D tmps0 fl st'.
 Proof.
   intros E1 E2 Htf Hkeep Hsol. constructor.
   - exact Htf.
-  - intros ds l Hin. rewrite E1 in Hin. destruct (Hstack0 ds l Hin) as [E|[(q & Hq & Eq & Hs)|(E & Hso)]].
+  - intros ds l Hin Hrj. rewrite E1 in Hin. destruct (Hstack0 ds l Hin Hrj) as [E|[(q & Hq & Eq & Hs)|(E & Hso)]].
     + rewrite E. exact I.
     + rewrite <- Eq. apply Hkeep; auto.
-    + rewrite E. apply Hsol. exact Hso.
-  - intros q Hin. rewrite E2 in Hin. destruct (Hseen0 q Hin) as [(Hq & Hs)|(-> & Hso)].
+    + subst ds. assert (E : pcomps p = comps p) by (apply pcomps_nonempty; intro E0; rewrite E0 in Hok; discriminate).
+      rewrite E. apply Hsol; auto.
+  - intros q Hin Hrj. rewrite E2 in Hin. destruct (Hseen0 q Hin Hrj) as [(Hq & Hs)|(-> & Hso)].
     + apply Hkeep; auto.
-    + apply Hsol. exact Hso.
+    + apply Hsol; auto.
 Qed.
 
 (* the path is new: everything still unread sorts after it *)
 Lemma final_add st old done :
   J st old done -> (forall s, In s old -> compare_path p (st_path s) = Lt) ->
-  NInv (apply_change c idx 0 p s2 (set_diff st old [])) acc'.
+  NInv (apply_change fl c idx 0 p s2 (set_diff st old [])) acc'.
 Proof.
   intros Jv Hgt. pose proof (j_base _ _ _ Jv) as G.
   set (st0 := set_diff st old []).
@@ -521,19 +539,21 @@ Proof.
     - apply step_refl; [apply (g_wf D f0 tmps0 st acc' G)|apply (g_next D f0 tmps0 st acc' G)].
     - repeat split.
     - apply G. }
-  assert (Hpre : live st0 = true -> change_pre D tmps0 0 st0 p s2 acc').
-  { intros L. destruct (j_live _ _ _ Jv L) as (A1 & A2 & A3 & A4).
+  assert (Hpre : live st0 = true -> f_rej fl p = false -> change_pre D tmps0 0 st0 p s2 acc').
+  { intros L Hrj. destruct (j_live _ _ _ Jv L) as (A1 & A2 & A3 & A4).
     unfold change_pre. cbn [r_fs st0 set_diff r_pipes].
     split; [exact Hok|]. split; [exact Hclp|]. split.
-    - destruct Hpar0 as [E|(q & Hq & Eq & Hs)]; [rewrite E; exact I|]. rewrite <- Eq. apply A2; auto.
+    - destruct (Hpar0 Hrj) as [E|(q & Hq & Eq & Hs)]; [rewrite E; exact I|]. rewrite <- Eq. apply A2; auto.
     - split; [exact A1|]. split; [|split].
-      + intros _ Hhb. destruct (Hlink0 Hhb) as [Hq Hs]. destruct (acc_clean _ Hq) as [Hokl _]. split; auto.
+      + intros _ Hhb. destruct (Hlink0 Hhb Hrj) as [Hq Hs]. destruct (acc_clean _ Hq) as [Hokl _]. split; auto.
         pose proof (A2 _ Hq Hs) as Hs'. rewrite (split_comps _ Hokl) in Hs'. apply safe_prefix in Hs'. exact Hs'.
       + intros id pp Hin. apply cmp_lt_not_prefix. apply accpaths_lt_p. apply (j_pipes _ _ _ Jv id pp Hin).
       + intros _. apply p_in_accpaths'. }
-  pose proof (apply_change_inv D root f0 tmps0 tmp_ok idx 0 p s2 st0 acc' G0 Hpre) as X.
+  assert (Hfree0 : live st0 = true -> forall j t, reach (r_fs st0) j -> tmpname tmps0 t -> blookup t (ents (r_fs st0) j) = None).
+  { intros L. apply (j_live _ _ _ Jv L). }
+  pose proof (apply_change_inv D root f0 tmps0 fl Hmap_mode Hmap_link Hclosed tmp_ok idx 0 p s2 st0 acc' G0 Hpre Hfree0) as X.
   change {| c_root := root; c_cwd := D |} with c in X. cbv zeta in X.
-  set (st1 := apply_change c idx 0 p s2 st0) in *.
+  set (st1 := apply_change fl c idx 0 p s2 st0) in *.
   destruct X as (G1 & (F1 & F2 & F3 & F4 & F5 & _) & Hpost).
   assert (Hall_unsup : live st = true -> forall s, In s old -> suppressed (r_rmdir st) (st_path s) = false).
   { intros L s Hs. destruct (j_live _ _ _ Jv L) as (_ & _ & _ & A4).
@@ -554,7 +574,7 @@ Proof.
       * apply cmp_lt_not_prefix. apply accpaths_lt_p. exact Hq.
       * apply (acc_clean q Hq).
       * apply (A2 q Hq Hs).
-    + intros Hw. apply P3; [discriminate|apply wanted_solid; exact Hw].
+    + intros Hw Hrj. apply P3; [discriminate|apply wanted_solid; exact Hw|exact Hrj].
   - (* the old listing *)
     intros L1. constructor.
     + exists done. rewrite F3. cbn [r_old st0 set_diff]. split; [apply Jv|].
@@ -603,7 +623,7 @@ Lemma final_eq st f1 rest done :
   J st (f1 :: rest) done -> st_path f1 = p ->
   let rm := if st_is_dir f1 && negb (st_is_dir s2) then st_path f1 ++ [sep] else [] in
   let st1 := set_diff st rest rm in
-  NInv (if same_file f1 s2 then st1 else apply_change c idx 1 p s2 st1) acc'.
+  NInv (if same_file f1 (f_map fl s2) then st1 else apply_change fl c idx 1 p s2 st1) acc'.
 Proof.
   intros Jv Ep rm st1. pose proof (j_base _ _ _ Jv) as G.
   assert (Hin1 : In f1 L0) by (apply (old_in st (f1 :: rest) done f1 Jv); left; reflexivity).
@@ -652,14 +672,14 @@ Proof.
           pose proof (accpaths_lt_p _ Hq) as H. rewrite E0, compare_path_refl in H. discriminate.
         * cbn [visdir it item_of]. apply andb_true_iff in Erm. destruct Erm as [_ Erm]. apply negb_true_iff in Erm. exact Erm.
       + exists it. split; [apply it_in_acc'|]. cbn [vpath it item_of]. fold p. rewrite compare_path_refl. discriminate. }
-  destruct (same_file f1 s2) eqn:Esame.
+  destruct (same_file f1 (f_map fl s2)) eqn:Esame.
   - (* nothing to do *)
-    pose proof (same_file_mode f1 s2 Esame) as Emode.
+    pose proof (same_file_mode f1 _ Esame) as Emode. rewrite Hmap_mode in Emode.
     split; [|apply HO; auto].
     + split; [exact G1|]. intros L. assert (L0' : live st = true) by exact L.
       destruct (j_live _ _ _ Jv L0') as (A1 & A2 & A3 & A4). destruct (Hlive L0') as [_ Hwp].
       apply (alive_after st st1); cbn [r_vstk r_seen r_fs st1 set_diff]; try apply Jv; auto.
-      intros [Hdir|[Hns _]].
+      intros [Hdir|[Hns _]] _.
       * apply (rwalk_dir_safe (r_fs st) (comps p) D i1 Hwp).
         rewrite (base_is_dir st acc' i1 G Hi1), <- Hd1. unfold st_is_dir in *. rewrite Emode. exact Hdir.
       * apply (safe_of_rwalk_nolink (r_fs st) (comps p) i1 Hwp).
@@ -683,7 +703,7 @@ Proof.
           + intro E. pose proof (base_tag st acc' i1 G Hi1) as Ht. rewrite E in Ht. simpl in Ht.
             destruct (get f0 i1); [discriminate|]. apply Hex1. reflexivity. }
       pose proof (apply_change_inplace idx 1 p s2 st1 acc' G1 eq_refl Ed2 Hinp) as X. cbv zeta in X.
-      set (st2 := apply_change c idx 1 p s2 st1) in *.
+      set (st2 := apply_change fl c idx 1 p s2 st1) in *.
       destruct X as (G2 & (F1 & F2 & F3 & F4 & F5 & F6) & Hl & b & Hb & S).
       pose proof (g_wf D f0 tmps0 st acc' G) as Wg.
       change (r_fs st1) with (r_fs st) in S.
@@ -696,7 +716,7 @@ Proof.
         -- intros j t Rj Ht. pose proof (quiet_reach D b _ _ j Wg S Rj) as Rj0.
            rewrite (quiet_blookup D b _ _ j t S (reach_lt D _ j Wg Rj0)). apply A1; auto.
         -- intros q Hq Hs. apply (quiet_safe D b (r_fs st)); auto.
-        -- intros _. apply (rwalk_dir_safe (r_fs st2) (comps p) D i1).
+        -- intros _ _. apply (rwalk_dir_safe (r_fs st2) (comps p) D i1).
            ++ rewrite (quiet_rwalk D b (r_fs st) (r_fs st2) (comps p) Wg S). exact Hwp.
            ++ rewrite (base_is_dir st2 acc' i1 G2 Hi1), <- Hd1. exact Ed1.
       * apply HO; [rewrite F3; reflexivity|rewrite F4; reflexivity|].
@@ -705,20 +725,22 @@ Proof.
         rewrite (quiet_rwalk D b (r_fs st) (r_fs st2) _ Wg S).
         apply (A3 s (or_intror Hs) (Hun s (or_intror Hs))).
     + (* replaced by a new entry made next to it *)
-      assert (Hpre : live st1 = true -> change_pre D tmps0 1 st1 p s2 acc').
-      { intros L. assert (L0' : live st = true) by exact L.
+      assert (Hpre : live st1 = true -> f_rej fl p = false -> change_pre D tmps0 1 st1 p s2 acc').
+      { intros L Hrj. assert (L0' : live st = true) by exact L.
         destruct (j_live _ _ _ Jv L0') as (A1 & A2 & A3 & A4). destruct (Hlive L0') as [_ Hwp].
         unfold change_pre. cbn [r_fs st1 set_diff r_pipes].
         split; [exact Hok|]. split; [exact Hclp|]. split.
         - apply (rwalk_prefix_safe (r_fs st) (comps p) D i1 Hwp).
         - split; [exact A1|]. split; [|split].
-          + intros _ Hhb. destruct (Hlink0 Hhb) as [Hq Hs]. destruct (acc_clean _ Hq) as [Hokl _]. split; auto.
+          + intros _ Hhb. destruct (Hlink0 Hhb Hrj) as [Hq Hs]. destruct (acc_clean _ Hq) as [Hokl _]. split; auto.
             pose proof (A2 _ Hq Hs) as Hs'. rewrite (split_comps _ Hokl) in Hs'. apply safe_prefix in Hs'. exact Hs'.
           + intros id pp Hin. apply cmp_lt_not_prefix. apply accpaths_lt_p. apply (j_pipes _ _ _ Jv id pp Hin).
           + intros _. apply p_in_accpaths'. }
-      pose proof (apply_change_inv D root f0 tmps0 tmp_ok idx 1 p s2 st1 acc' G1 Hpre) as X.
+      assert (Hfree1 : live st1 = true -> forall j t, reach (r_fs st1) j -> tmpname tmps0 t -> blookup t (ents (r_fs st1) j) = None).
+      { intros L. apply (j_live _ _ _ Jv L). }
+      pose proof (apply_change_inv D root f0 tmps0 fl Hmap_mode Hmap_link Hclosed tmp_ok idx 1 p s2 st1 acc' G1 Hpre Hfree1) as X.
       change {| c_root := root; c_cwd := D |} with c in X. cbv zeta in X.
-      set (st2 := apply_change c idx 1 p s2 st1) in *.
+      set (st2 := apply_change fl c idx 1 p s2 st1) in *.
       destruct X as (G2 & (F1 & F2 & F3 & F4 & F5 & _) & Hpost).
       split.
       * split; [exact G2|]. intros L2. destruct (Hpost L2) as (L1 & P1 & P2 & P3).
@@ -732,7 +754,7 @@ Proof.
            ++ apply cmp_lt_not_prefix. apply accpaths_lt_p. exact Hq.
            ++ apply (acc_clean q Hq).
            ++ apply (A2 q Hq Hs).
-        -- intros Hw. apply P3; [discriminate|apply wanted_solid; exact Hw].
+        -- intros Hw Hrj. apply P3; [discriminate|apply wanted_solid; exact Hw|exact Hrj].
       * apply HO; [rewrite F3; reflexivity|rewrite F4; reflexivity|].
         intros L2 s Hs Hsup'. destruct (Hpost L2) as (L1 & P1 & P2 & P3).
         assert (L0' : live st = true) by exact L1.
@@ -762,7 +784,7 @@ Proof.
   - intros H. congruence.
 Qed.
 
-Theorem diff_feed_inv : forall old st done, J st old done -> NInv (diff_feed c idx s2 old st) acc'.
+Theorem diff_feed_inv : forall old st done, J st old done -> NInv (diff_feed fl c idx s2 old st) acc'.
 Proof.
   induction old as [|f1 rest IH]; intros st done Jv; cbn [diff_feed].
   - apply (final_add st [] done Jv). intros s [].
@@ -771,7 +793,7 @@ Proof.
     + destruct (suppressed (r_rmdir st) (st_path f1)) eqn:Es.
       * apply (IH _ (done ++ [f1])). apply suppressed_step; auto.
       * pose proof (delete_step st f1 rest done Jv Ecmp Es) as J1.
-        destruct (live (apply_change c idx 2 (st_path f1) f1 (set_diff st rest (rm_prefix_of f1)))) eqn:L1.
+        destruct (live (apply_change fl c idx 2 (st_path f1) f1 (set_diff st rest (rm_prefix_of f1)))) eqn:L1.
         -- apply (IH _ (done ++ [f1]) J1).
         -- apply (J_dead _ rest (done ++ [f1]) J1 L1).
     + apply (final_add st (f1 :: rest) done Jv).
@@ -851,7 +873,7 @@ Qed.
 
 Lemma flush_delete st f1 rest done :
   FJ st (f1 :: rest) done -> suppressed (r_rmdir st) (st_path f1) = false ->
-  FJ (apply_change c idx 2 (st_path f1) f1 (set_diff st rest (rm_prefix_of f1))) rest (done ++ [f1]).
+  FJ (apply_change fl c idx 2 (st_path f1) f1 (set_diff st rest (rm_prefix_of f1))) rest (done ++ [f1]).
 Proof.
   intros Fv Hsup. pose proof (f_base _ _ _ Fv) as G.
   set (q1 := st_path f1) in *. set (st0 := set_diff st rest (rm_prefix_of f1)).
@@ -865,8 +887,8 @@ Proof.
   assert (HSS : StronglySorted plt (f1 :: rest)) by (apply (fold_sorted st (f1 :: rest) done Fv)).
   assert (Hokall : forall s, In s (f1 :: rest) -> ok_path (st_path s) = true).
   { intros s Hs. apply (old_entry s (fold_in st _ done s Fv Hs)). }
-  assert (Hpre : live st0 = true -> change_pre D tmps0 2 st0 q1 f1 acc).
-  { intros L. destruct (f_live _ _ _ Fv L) as (A1 & A2 & A3 & A4).
+  assert (Hpre : live st0 = true -> f_rej fl q1 = false -> change_pre D tmps0 2 st0 q1 f1 acc).
+  { intros L _. destruct (f_live _ _ _ Fv L) as (A1 & A2 & A3 & A4).
     unfold change_pre. cbn [r_fs st0 set_diff r_pipes].
     split; [exact Hok1|]. split; [exact Hcl1|]. split.
     - pose proof (A3 f1 (or_introl eq_refl) Hsup) as Hp. rewrite Hw1 in Hp.
@@ -875,9 +897,11 @@ Proof.
       intros id pp Hin. apply cmp_lt_not_prefix.
       destruct (g_pipes D f0 tmps0 st acc G id pp Hin) as [Hq _]. unfold accpaths in Hq. apply in_map_iff in Hq.
       destruct Hq as (x & Ex & Hx). rewrite <- Ex. apply (f_gt _ _ _ Fv f1 x (or_introl eq_refl) Hx). }
-  pose proof (apply_change_inv D root f0 tmps0 tmp_ok idx 2 q1 f1 st0 acc G0 Hpre) as X.
+  assert (Hfree0 : live st0 = true -> forall j t, reach (r_fs st0) j -> tmpname tmps0 t -> blookup t (ents (r_fs st0) j) = None).
+  { intros L. apply (f_live _ _ _ Fv L). }
+  pose proof (apply_change_inv D root f0 tmps0 fl Hmap_mode Hmap_link Hclosed tmp_ok idx 2 q1 f1 st0 acc G0 Hpre Hfree0) as X.
   change {| c_root := root; c_cwd := D |} with c in X. cbv zeta in X.
-  set (st1 := apply_change c idx 2 q1 f1 st0) in *.
+  set (st1 := apply_change fl c idx 2 q1 f1 st0) in *.
   destruct X as (G1 & (F1 & F2 & F3 & F4 & F5 & _) & Hpost).
   constructor.
   - exact G1.
@@ -918,26 +942,26 @@ Proof.
 Qed.
 
 
-Hypothesis Hstk0 : forall ds l, In (ds, l) (r_vstk stin) ->
+Hypothesis Hstk0 : forall ds l, In (ds, l) (r_vstk stin) -> f_rej fl ds = false ->
   pcomps ds = [] \/ exists q, In q (accpaths acc) /\ comps q = pcomps ds /\ safe (r_fs stin) D (comps q).
-Hypothesis Hsn0 : forall q, In q (r_seen stin) -> In q (accpaths acc) /\ safe (r_fs stin) D (comps q).
+Hypothesis Hsn0 : forall q, In q (r_seen stin) -> f_rej fl q = false -> In q (accpaths acc) /\ safe (r_fs stin) D (comps q).
 
 Lemma flush_done st old done : FJ st old done -> (live st = true -> old = []) -> NInv st acc.
 Proof.
   intros Fv Hnil. split.
   - split; [apply Fv|]. intros L. destruct (f_live _ _ _ Fv L) as (A1 & A2 & _). constructor.
     + exact A1.
-    + intros ds l Hin. rewrite (f_vstk _ _ _ Fv) in Hin. destruct (Hstk0 ds l Hin) as [E|(q & Hq & Eq & Hs)].
+    + intros ds l Hin Hrj. rewrite (f_vstk _ _ _ Fv) in Hin. destruct (Hstk0 ds l Hin Hrj) as [E|(q & Hq & Eq & Hs)].
       * rewrite E. exact I.
       * rewrite <- Eq. apply A2; auto.
-    + intros q Hin. rewrite (f_seen _ _ _ Fv) in Hin. destruct (Hsn0 q Hin) as [Hq Hs]. apply A2; auto.
+    + intros q Hin Hrj. rewrite (f_seen _ _ _ Fv) in Hin. destruct (Hsn0 q Hin Hrj) as [Hq Hs]. apply A2; auto.
   - intros L. pose proof (f_closed _ _ _ Fv) as Hc. constructor.
     + exists done. rewrite (f_old _ _ _ Fv). split; [apply Fv|]. intros H. congruence.
     + rewrite (f_old _ _ _ Fv), (Hnil L). intros s it0 [].
     + intros H. congruence.
 Qed.
 
-Theorem diff_flush_inv : forall old st done, FJ st old done -> NInv (diff_flush c idx old st) acc.
+Theorem diff_flush_inv : forall old st done, FJ st old done -> NInv (diff_flush fl c idx old st) acc.
 Proof.
   induction old as [|f1 rest IH]; intros st done Fv; cbn [diff_flush].
   - apply (flush_done _ [] done); [|auto].
@@ -950,7 +974,7 @@ Proof.
   - destruct (suppressed (r_rmdir st) (st_path f1)) eqn:Es.
     + apply (IH _ (done ++ [f1])). apply flush_skip. exact Fv.
     + pose proof (flush_delete st f1 rest done Fv Es) as F1.
-      destruct (live (apply_change c idx 2 (st_path f1) f1 (set_diff st rest (rm_prefix_of f1)))) eqn:L1.
+      destruct (live (apply_change fl c idx 2 (st_path f1) f1 (set_diff st rest (rm_prefix_of f1)))) eqn:L1.
       * apply (IH _ (done ++ [f1]) F1).
       * apply (flush_done _ rest (done ++ [f1]) F1). intros H. congruence.
 Qed.
@@ -1015,7 +1039,7 @@ Qed.
 
 Lemma recv_data_ninv idx id d st acc : NInv st acc -> NInv (recv_data c idx id d st) acc.
 Proof.
-  intros [G O]. destruct (recv_data_dq D root f0 tmps0 W0 tmp_ok idx id d st acc G) as (G' & S & Hl).
+  intros [G O]. destruct (recv_data_dq D root f0 tmps0 W0 fl Hclosed tmp_ok idx id d st acc G) as (G' & S & Hl).
   change {| c_root := root; c_cwd := D |} with c in G', S, Hl.
   destruct (recv_data_same idx id d st) as (E1 & E2 & E3).
   split; [exact G'|].
@@ -1025,7 +1049,7 @@ Qed.
 Lemma maybe_wait_ninv idx st acc : NInv st acc -> NInv (maybe_wait c dl idx st) acc.
 Proof.
   intros [G O]. split.
-  - pose proof (maybe_wait_inv D root f0 tmps0 dl tmp_ok idx st acc G) as X.
+  - pose proof (maybe_wait_inv D root f0 tmps0 dl fl Hclosed tmp_ok idx st acc G) as X.
     change {| c_root := root; c_cwd := D |} with c in X. exact X.
   - unfold maybe_wait.
     destruct ((running st || match r_out st with Drained _ => true | _ => false end) && negb (is_dead st)); [|exact O].
@@ -1064,113 +1088,27 @@ Proof.
       * destruct (mem_bytes (st_linkname s) seen); intros H; inversion H; subst; auto.
 Qed.
 
-Lemma stack_acc st acc ds l : GB st acc -> alive_inv D tmps0 st -> In (ds, l) (r_vstk st) ->
+Lemma stack_acc st acc ds l : GB st acc -> alive_inv D tmps0 fl st -> In (ds, l) (r_vstk st) -> f_rej fl ds = false ->
   pcomps ds = [] \/ exists q, In q (accpaths acc) /\ comps q = pcomps ds /\ safe (r_fs st) D (comps q).
 Proof.
-  intros G [A1 A2 A3] Hin. destruct (pcomps ds) as [|x r] eqn:E; [left; reflexivity|right].
+  intros G [A1 A2 A3] Hin Hrj. destruct (pcomps ds) as [|x r] eqn:E; [left; reflexivity|right].
   assert (Hin' : In (pcomps ds, l) (map ce (r_vstk st))) by (apply in_map_iff; exists (ds, l); split; auto).
   destruct (inv_dirs _ _ (g_vinv D f0 tmps0 st acc G) _ _ Hin') as (q & Hq & Eq & _); [rewrite E; discriminate|].
   apply in_map_iff in Hq. destruct Hq as (it' & <- & Hit'). cbn [ipath citem_of] in Eq.
   exists (vpath it'). split; [apply in_map; exact Hit'|]. split; [rewrite <- E; exact Eq|].
-  rewrite Eq. apply (A2 ds l Hin).
-Qed.
-
-Lemma recv_stat_ninv idx s st acc :
-  NInv st acc -> running st = true -> cleanp (st_path s) -> exists acc', NInv (recv_stat c idx s st) acc'.
-Proof.
-  intros [[G A] O] Hrun Hcl. unfold recv_stat.
-  set (files := if mode_is_regular (st_mode s) then bset (st_path s) (r_next st) (r_files st) else r_files st).
-  set (it := item_of s).
-  destruct (vstep (r_vstk st) it) as [v'|] eqn:Ev.
-  2:{ exists acc. apply NInv_stop'; [|discriminate].
-      apply (GBase_quiet D f0 tmps0 st _ acc b0 G); try (unfold b0; lia); simpl.
-      - apply step_refl; [apply (g_wf D f0 tmps0 st acc G)|apply (g_next D f0 tmps0 st acc G)].
-      - repeat split.
-      - apply G. }
-  pose proof (vstep_ok_path _ _ _ Ev) as Hok. change (vpath it) with (st_path s) in Hok.
-  pose proof (vstep_refines (r_vstk st) it (g_R D f0 tmps0 st acc G) Hok) as Hr. rewrite Ev in Hr. destruct Hr as [Hcv HR'].
-  destruct (cvstep_sound _ _ _ _ (g_vinv D f0 tmps0 st acc G) (okitem_names it Hok) Hcv) as [Hspec HI'].
-  change [citem_of it] with (map citem_of [it]) in HI'. rewrite <- map_app in HI'.
-  destruct (cvstep_shape _ _ _ (inv_chain _ _ (g_vinv D f0 tmps0 st acc G)) Hcv) as [Hparent Hshape].
-  pose proof (cvstep_parent_new _ _ _ Hcv) as Hpar'.
-  cbn [ipath citem_of it item_of vpath] in Hparent, Hshape, Hpar'.
-  exists (acc ++ [it]).
-  assert (Hbase : forall st', r_fs st' = r_fs st -> r_vstk st' = v' -> r_pipes st' = r_pipes st -> r_tmps st' = r_tmps st ->
-             (forall q, In q (r_seen st') -> In q (r_seen st) \/ q = st_path s) -> GB st' (acc ++ [it])).
-  { intros st' E1 E2 E3 E4 E5. apply (GBase_ext D f0 tmps0 st st' acc it v'); auto. }
-  destruct (hl_step (r_seen st) s) as [seen'|] eqn:Eh.
-  2:{ apply NInv_stop'; [|discriminate]. apply Hbase; simpl; auto. }
-  destruct (hl_step_seen _ _ _ Eh) as [Hseen' Hlinkseen].
-  set (st1 := set_valid (set_valid st (r_vstk st) (r_seen st) files (r_next st + 1)) v' seen' files (r_next st + 1)).
-  assert (G1 : GB st1 (acc ++ [it])).
-  { apply Hbase; simpl; auto. intros q Hq. destruct (Hseen' q Hq) as [H|[H _]]; auto. }
-  destruct (r_closed st1) eqn:Ecl.
-  { cbn [negb]. rewrite andb_false_r. apply NInv_stop'; [exact G1|discriminate]. }
-  cbn [negb]. rewrite andb_true_r.
-  destruct (is_dead st1) eqn:Edd; [apply NInv_stop'; [exact G1|discriminate]|].
-  assert (Edd' : is_dead st = false) by exact Edd.
-  assert (Ecl' : r_closed st = false) by exact Ecl.
-  assert (L : live st = true) by (unfold live; rewrite Hrun, Edd'; reflexivity).
-  pose proof (A L) as AL. destruct AL as [A1 A2 A3]. destruct (O L) as [(done & Esplit & Hdone) O2 O3].
-  specialize (Hdone Ecl'). destruct (O3 Ecl') as [Hprist Hrm].
-  assert (Hlt : forall it0, In it0 acc -> compare_path (vpath it0) (st_path s) = Lt).
-  { intros it0 Hit0. destruct Hspec as (_ & Hlt & _). rewrite compare_path_lex. apply (Hlt (citem_of it0)). apply in_map. exact Hit0. }
-  assert (Hpar0 : removelast (comps (st_path s)) = [] \/
-            exists q, In q (accpaths acc) /\ comps q = removelast (comps (st_path s)) /\ safe (r_fs st1) D (comps q)).
-  { destruct Hparent as [l Hl]. apply In_map_ce in Hl. destruct Hl as (ds & Hin & Eds).
-    destruct (stack_acc st acc ds l G (A L) Hin) as [E|(q & Hq & Eq & Hs)].
-    - left. rewrite <- Eds. exact E.
-    - right. exists q. split; auto. split; [rewrite Eq; exact Eds|exact Hs]. }
-  assert (Hlink0 : hardlink_branch s = true ->
-            In (st_linkname s) (accpaths acc) /\ safe (r_fs st1) D (comps (st_linkname s))).
-  { intros Hhb. pose proof (Hlinkseen Hhb) as Hin. split; [apply (g_seen D f0 tmps0 st acc G _ Hin)|apply (A3 _ Hin)]. }
-  assert (Hstack0 : forall ds l, In (ds, l) v' ->
-            pcomps ds = [] \/ (exists q, In q (accpaths acc) /\ comps q = pcomps ds /\ safe (r_fs st1) D (comps q))
-            \/ (pcomps ds = comps (st_path s) /\ wanted s)).
-  { intros ds l Hin.
-    assert (Hin' : In (pcomps ds, l) (map ce v')) by (apply in_map_iff; exists (ds, l); split; auto).
-    destruct (Hshape _ _ Hin') as [(Hp & l' & Hl')|(E1 & E2 & _)].
-    - apply In_map_ce in Hl'. destruct Hl' as (ds' & Hin2 & Eds).
-      destruct (stack_acc st acc ds' l' G (A L) Hin2) as [E|(q & Hq & Eq & Hs)].
-      + left. rewrite <- Eds. exact E.
-      + right. left. exists q. split; auto. split; [rewrite Eq; exact Eds|exact Hs].
-    - right. right. split; [exact E1|]. left. cbn [isdir citem_of it item_of visdir] in E2. exact E2. }
-  assert (Hseen0 : forall q, In q seen' ->
-            (In q (accpaths acc) /\ safe (r_fs st1) D (comps q)) \/ (q = st_path s /\ wanted s)).
-  { intros q Hq. destruct (hl_step_wanted _ _ _ Eh q Hq) as [H|H]; [left|right; exact H].
-    split; [apply (g_seen D f0 tmps0 st acc G _ H)|apply (A3 _ H)]. }
-  pose proof (diff_feed_inv st1 acc s v' seen' idx Hok Hcl Hspec HI' Hpar'
-                (g_acc D f0 tmps0 st acc G) Hpar0 Hlink0 Hstack0 Hseen0 Ecl (r_old st1) st1 done) as X.
-  apply X. clear X.
-  constructor.
-  - exact G1.
-  - reflexivity.
-  - reflexivity.
-  - intros id pp Hin. apply (g_pipes D f0 tmps0 st acc G id pp Hin).
-  - exact Ecl.
-  - reflexivity.
-  - exact Esplit.
-  - intros s' Hs'. destruct (Hdone s' Hs') as (it0 & Hit0 & Hle).
-    apply (cmp_le_lt_trans _ (vpath it0)); auto.
-  - exact O2.
-  - intros _. split; [exact A1|]. split; [auto|]. split; [exact Hprist|].
-    destruct Hrm as [E|(X & E & HX & Hgt & Hdead & (it1 & Hit1 & Hle))]; [left; exact E|right].
-    assert (HXp : compare_path X (st_path s) = Lt) by (apply (cmp_le_lt_trans _ (vpath it1)); auto).
-    exists X. split; [exact E|]. split; [exact HX|]. split; [exact Hgt|]. split; [|exact HXp].
-    intros it0 Hit0 Ev0. apply in_app_or in Hit0. destruct Hit0 as [Hit0|[<-|[]]]; [apply Hdead; auto|].
-    exfalso. apply (cmp_lt_ne _ _ HXp). symmetry. exact Ev0.
+  rewrite Eq. apply (A2 ds l Hin Hrj).
 Qed.
 
 (* the same for an entry both validators have accepted, whatever the bookkeeping of ids (used by
    the metadata branch of the receive loop, Model/RecvMeta.v) *)
 Lemma feed_nomerge idx s st acc v' seen' files next :
-  NInv st acc -> cleanp (st_path s) ->
+  NInv st acc -> cleanp (st_path s) -> link_ok fl s ->
   vstep (r_vstk st) (item_of s) = Some v' -> hl_step (r_seen st) s = Some seen' ->
   let st1 := set_valid st v' seen' files next in
   GB st1 (acc ++ [item_of s])
-  /\ (live st = true -> r_closed st = false -> NInv (diff_feed c idx s (r_old st1) st1) (acc ++ [item_of s])).
+  /\ (live st = true -> r_closed st = false -> NInv (diff_feed fl c idx s (r_old st1) st1) (acc ++ [item_of s])).
 Proof.
-  intros [[G A] O] Hcl Ev Eh. cbv zeta.
+  intros [[G A] O] Hcl Hlk Ev Eh. cbv zeta.
   set (it := item_of s) in *.
   pose proof (vstep_ok_path _ _ _ Ev) as Hok. change (vpath it) with (st_path s) in Hok.
   pose proof (vstep_refines (r_vstk st) it (g_R D f0 tmps0 st acc G) Hok) as Hr. rewrite Ev in Hr. destruct Hr as [Hcv HR'].
@@ -1192,30 +1130,36 @@ Proof.
   specialize (Hdone Ecl'). destruct (O3 Ecl') as [Hprist Hrm].
   assert (Hlt : forall it0, In it0 acc -> compare_path (vpath it0) (st_path s) = Lt).
   { intros it0 Hit0. destruct Hspec as (_ & Hlt & _). rewrite compare_path_lex. apply (Hlt (citem_of it0)). apply in_map. exact Hit0. }
-  assert (Hpar0 : removelast (comps (st_path s)) = [] \/
+  assert (Ecs : comps (st_path s) = removelast (comps (st_path s)) ++ [last (comps (st_path s)) []]) by (apply split_comps; auto).
+  assert (Hpar0 : f_rej fl (st_path s) = false -> removelast (comps (st_path s)) = [] \/
             exists q, In q (accpaths acc) /\ comps q = removelast (comps (st_path s)) /\ safe (r_fs st1) D (comps q)).
-  { destruct Hparent as [l Hl]. apply In_map_ce in Hl. destruct Hl as (ds & Hin & Eds).
-    destruct (stack_acc st acc ds l G (A L) Hin) as [E|(q & Hq & Eq & Hs)].
-    - left. rewrite <- Eds. exact E.
+  { intros Hrj. destruct Hparent as [l Hl]. apply In_map_ce in Hl. destruct Hl as (ds & Hin & Eds).
+    destruct (dir_accepted fl Hclosed (r_vstk st) ds l (st_path s) (g_R D f0 tmps0 st acc G) Hin Hok) as [E|E]; auto.
+    { rewrite Eds. exists [last (comps (st_path s)) []]. rewrite <- Ecs. reflexivity. }
+    { left. rewrite <- Eds. exact E. }
+    destruct (stack_acc st acc ds l G (A L) Hin E) as [E'|(q & Hq & Eq & Hs)].
+    - left. rewrite <- Eds. exact E'.
     - right. exists q. split; auto. split; [rewrite Eq; exact Eds|exact Hs]. }
-  assert (Hlink0 : hardlink_branch s = true ->
+  assert (Hlink0 : hardlink_branch s = true -> f_rej fl (st_path s) = false ->
             In (st_linkname s) (accpaths acc) /\ safe (r_fs st1) D (comps (st_linkname s))).
-  { intros Hhb. pose proof (Hlinkseen Hhb) as Hin. split; [apply (g_seen D f0 tmps0 st acc G _ Hin)|apply (A3 _ Hin)]. }
-  assert (Hstack0 : forall ds l, In (ds, l) v' ->
+  { intros Hhb Hrj. pose proof (Hlinkseen Hhb) as Hin.
+    split; [apply (g_seen D f0 tmps0 st acc G _ Hin)|apply (A3 _ Hin (Hlk Hhb Hrj))]. }
+  assert (Hstack0 : forall ds l, In (ds, l) v' -> f_rej fl ds = false ->
             pcomps ds = [] \/ (exists q, In q (accpaths acc) /\ comps q = pcomps ds /\ safe (r_fs st1) D (comps q))
-            \/ (pcomps ds = comps (st_path s) /\ wanted s)).
-  { intros ds l Hin.
+            \/ (ds = st_path s /\ wanted s)).
+  { intros ds l Hin Hrj.
     assert (Hin' : In (pcomps ds, l) (map ce v')) by (apply in_map_iff; exists (ds, l); split; auto).
     destruct (Hshape _ _ Hin') as [(Hp & l' & Hl')|(E1 & E2 & _)].
-    - apply In_map_ce in Hl'. destruct Hl' as (ds' & Hin2 & Eds).
-      destruct (stack_acc st acc ds' l' G (A L) Hin2) as [E|(q & Hq & Eq & Hs)].
-      + left. rewrite <- Eds. exact E.
-      + right. left. exists q. split; auto. split; [rewrite Eq; exact Eds|exact Hs].
-    - right. right. split; [exact E1|]. left. cbn [isdir citem_of it item_of visdir] in E2. exact E2. }
-  assert (Hseen0 : forall q, In q seen' ->
+    - apply In_map_ce in Hl'. destruct Hl' as (ds' & Hin2 & Eds). apply pcomps_inj_ok in Eds. subst ds'.
+      destruct (stack_acc st acc ds l' G (A L) Hin2 Hrj) as [E|(q & Hq & Eq & Hs)].
+      + left. exact E.
+      + right. left. exists q. split; auto.
+    - right. right. split; [|left; cbn [isdir citem_of it item_of visdir] in E2; exact E2].
+      apply pcomps_inj_ok. rewrite E1. symmetry. apply pcomps_nonempty. intro E0. rewrite E0 in Hok. discriminate. }
+  assert (Hseen0 : forall q, In q seen' -> f_rej fl q = false ->
             (In q (accpaths acc) /\ safe (r_fs st1) D (comps q)) \/ (q = st_path s /\ wanted s)).
-  { intros q Hq. destruct (hl_step_wanted _ _ _ Eh q Hq) as [H|H]; [left|right; exact H].
-    split; [apply (g_seen D f0 tmps0 st acc G _ H)|apply (A3 _ H)]. }
+  { intros q Hq Hrj. destruct (hl_step_wanted _ _ _ Eh q Hq) as [H|H]; [left|right; exact H].
+    split; [apply (g_seen D f0 tmps0 st acc G _ H)|apply (A3 _ H Hrj)]. }
   pose proof (diff_feed_inv st1 acc s v' seen' idx Hok Hcl Hspec HI' Hpar'
                 (g_acc D f0 tmps0 st acc G) Hpar0 Hlink0 Hstack0 Hseen0 Ecl (r_old st1) st1 done) as X.
   apply X. clear X.
@@ -1239,9 +1183,40 @@ Proof.
 Qed.
 
 
+Lemma recv_stat_ninv idx s st acc :
+  NInv st acc -> running st = true -> cleanp (st_path s) -> link_ok fl s ->
+  exists acc', NInv (recv_stat fl c idx s st) acc'.
+Proof.
+  intros M Hrun Hcl Hlk. pose proof M as [[G A] O]. unfold recv_stat.
+  set (files := if mode_is_regular (st_mode s) then bset (st_path s) (r_next st) (r_files st) else r_files st).
+  set (it := item_of s).
+  destruct (vstep (r_vstk st) it) as [v'|] eqn:Ev.
+  2:{ exists acc. apply NInv_stop'; [|discriminate].
+      apply (GBase_quiet D f0 tmps0 st _ acc b0 G); try (unfold b0; lia); simpl.
+      - apply step_refl; [apply (g_wf D f0 tmps0 st acc G)|apply (g_next D f0 tmps0 st acc G)].
+      - repeat split.
+      - apply G. }
+  pose proof (vstep_ok_path _ _ _ Ev) as Hok. change (vpath it) with (st_path s) in Hok.
+  pose proof (vstep_refines (r_vstk st) it (g_R D f0 tmps0 st acc G) Hok) as Hr. rewrite Ev in Hr. destruct Hr as [Hcv HR'].
+  destruct (cvstep_sound _ _ _ _ (g_vinv D f0 tmps0 st acc G) (okitem_names it Hok) Hcv) as [Hspec HI'].
+  change [citem_of it] with (map citem_of [it]) in HI'. rewrite <- map_app in HI'.
+  exists (acc ++ [it]).
+  destruct (hl_step (r_seen st) s) as [seen'|] eqn:Eh.
+  2:{ apply NInv_stop'; [|discriminate]. apply (GBase_ext D f0 tmps0 st _ acc it v'); simpl; auto. }
+  destruct (feed_nomerge idx s st acc v' seen' files (r_next st + 1) M Hcl Hlk Ev Eh) as (G1 & M1).
+  set (st1 := set_valid (set_valid st (r_vstk st) (r_seen st) files (r_next st + 1)) v' seen' files (r_next st + 1)).
+  change (set_valid st v' seen' files (r_next st + 1)) with st1 in G1, M1.
+  destruct (r_closed st1) eqn:Ecl.
+  { cbn [negb]. rewrite andb_false_r. apply NInv_stop'; [exact G1|discriminate]. }
+  cbn [negb]. rewrite andb_true_r.
+  destruct (is_dead st1) eqn:Edd; [apply NInv_stop'; [exact G1|discriminate]|].
+  assert (Edd' : is_dead st = false) by exact Edd.
+  apply M1; [unfold live; rewrite Hrun, Edd'; reflexivity|exact Ecl].
+Qed.
+
 Lemma flush_ninv idx st acc :
   NInv st acc -> live st = true -> r_closed st = false ->
-  NInv (diff_flush c idx (r_old st) (set_flags st true (r_waited st))) acc.
+  NInv (diff_flush fl c idx (r_old st) (set_flags st true (r_waited st))) acc.
 Proof.
   intros [[G A] O] L Ecl. destruct (A L) as [A1 A2 A3]. destruct (O L) as [(done & Esplit & _) O2 O3].
   destruct (O3 Ecl) as [Hprist Hrm].
@@ -1252,8 +1227,8 @@ Proof.
     - repeat split.
     - apply G. }
   pose proof (diff_flush_inv st1 acc idx (g_acc D f0 tmps0 st acc G)) as X.
-  apply (X ltac:(intros ds l Hin; apply (stack_acc st acc ds l G (A L) Hin))
-     ltac:(intros q Hq; split; [apply (g_seen D f0 tmps0 st acc G _ Hq)|apply (A3 _ Hq)]) (r_old st) st1 done). clear X.
+  apply (X ltac:(intros ds l Hin Hrj; apply (stack_acc st acc ds l G (A L) Hin Hrj))
+     ltac:(intros q Hq Hrj; split; [apply (g_seen D f0 tmps0 st acc G _ Hq)|apply (A3 _ Hq Hrj)]) (r_old st) st1 done). clear X.
   constructor.
   - exact G1.
   - reflexivity.
@@ -1267,7 +1242,7 @@ Proof.
 Qed.
 
 Lemma recv_packet_ninv idx pk st acc :
-  NInv st acc -> clean_packet tmps0 pk -> exists acc', NInv (recv_packet c dl idx pk st) acc'.
+  NInv st acc -> clean_packet tmps0 fl pk -> exists acc', NInv (recv_packet fl c dl idx pk st) acc'.
 Proof.
   intros M Hc. unfold recv_packet. destruct (running st) eqn:Hrun; cbn [negb]; [|exists acc; exact M].
   assert (X : exists acc', NInv (match pk with
@@ -1277,12 +1252,12 @@ Proof.
                                  | PStat None =>
                                    if r_closed st then set_out st (Panicked idx)
                                    else if is_dead st then set_out st (Failed idx)
-                                   else diff_flush c idx (r_old st) (set_flags st true (r_waited st))
-                                 | PStat (Some s) => recv_stat c idx s st
+                                   else diff_flush fl c idx (r_old st) (set_flags st true (r_waited st))
+                                 | PStat (Some s) => recv_stat fl c idx s st
                                  | PData id d => recv_data c idx id d st
                                  end) acc').
   { destruct pk as [[s|]|id d| | |].
-    - apply (recv_stat_ninv idx s st acc M Hrun Hc).
+    - apply (recv_stat_ninv idx s st acc M Hrun (proj1 Hc) (proj2 Hc)).
     - exists acc. destruct (r_closed st) eqn:Ecl; [apply NInv_stop; auto; discriminate|].
       destruct (is_dead st) eqn:Ed; [apply NInv_stop; auto; discriminate|].
       apply flush_ninv; auto. unfold live. rewrite Hrun, Ed. reflexivity.
@@ -1295,7 +1270,7 @@ Qed.
 
 (* packets other than a non-empty STAT accept nothing new *)
 Lemma recv_packet_ninv_other idx pk st acc :
-  NInv st acc -> (forall s, pk <> PStat (Some s)) -> NInv (recv_packet c dl idx pk st) acc.
+  NInv st acc -> (forall s, pk <> PStat (Some s)) -> NInv (recv_packet fl c dl idx pk st) acc.
 Proof.
   intros M Hpk. unfold recv_packet. destruct (running st) eqn:Hrun; cbn [negb]; [|exact M].
   apply maybe_wait_ninv. destruct pk as [[s|]|id d| | |].
@@ -1313,7 +1288,7 @@ Lemma NInv_files st acc files next :
   NInv st acc -> NInv (set_valid st (r_vstk st) (r_seen st) files next) acc.
 Proof.
   intros [G O]. split.
-  - apply (GInv_quiet D f0 tmps0 st _ acc b0 G); try (unfold b0; lia); simpl; auto.
+  - apply (GInv_quiet D f0 tmps0 fl st _ acc b0 G); try (unfold b0; lia); simpl; auto.
     + apply step_refl; [apply (g_wf D f0 tmps0 st acc (proj1 G))|apply (g_next D f0 tmps0 st acc (proj1 G))].
     + repeat split.
     + apply (proj1 G).
@@ -1322,7 +1297,7 @@ Proof.
 Qed.
 
 Lemma recv_loop_ninv : forall pks idx st acc,
-  NInv st acc -> Forall (clean_packet tmps0) pks -> exists acc', NInv (recv_loop c dl idx pks st) acc'.
+  NInv st acc -> Forall (clean_packet tmps0 fl) pks -> exists acc', NInv (recv_loop fl c dl idx pks st) acc'.
 Proof.
   induction pks as [|pk pks IH]; intros idx st acc M Hc; simpl; [exists acc; exact M|].
   inversion Hc; subst. destruct (recv_packet_ninv idx pk st acc M H1) as [acc1 M1].
@@ -1342,7 +1317,7 @@ Proof.
     + intros t Ht. right. exact Ht.
   - intros _. constructor; simpl.
     + exact Hunused.
-    + intros d l [E|[]]. inversion E; subst. exact I.
+    + intros d l [E|[]] _. inversion E; subst. exact I.
     + intros q [].
   - intros _. constructor; simpl.
     + exists []. split; [reflexivity|]. intros _ s [].
@@ -1351,10 +1326,10 @@ Proof.
 Qed.
 
 Theorem recv_nomerge_step pks budget :
-  Forall (clean_packet tmps0) pks ->
-  step TAll b0 f0 (r_fs (recv_run f0 root D dl false tmps0 pks budget)).
+  Forall (clean_packet tmps0 fl) pks ->
+  step TAll b0 f0 (r_fs (recv_run_f fl f0 root D dl false tmps0 pks budget)).
 Proof.
-  intros Hc. unfold recv_run.
+  intros Hc. unfold recv_run_f.
   destruct (recv_loop_ninv pks 0 _ [] (NInv_init budget) Hc) as [acc [[G _] _]]. apply G.
 Qed.
 
